@@ -43,7 +43,7 @@ def valid_cluster(inp):
 PROP = Prop(
     pid="C18",
     coq_props="theories/C18/Props.v",
-    coq_run=["theories/C18/Run.v", "theories/QE/Run.v"],
+    coq_run=["theories/C18/Run.v", "theories/QE/Run.v", "theories/C18/RunQ.v"],
     streams=[Stream("assign", "c18assign", n_quick=150, n_thorough=3000, valid=valid,
                     what="Nodes.redistribute/updateBackends/IsOurBackend on real Nodes and Peer objects"),
              Stream("cluster", "qe", n_quick=200, n_thorough=2000, shards_thorough=4, valid=valid_cluster,
